@@ -25,9 +25,11 @@ static std::string DepfileEscape(const std::string& p) {
 // ------------------------------------------------------------------ world basics
 std::string World::SourceContent(const std::string& p) const {
   if (const DyndepFile* d = sc.FindDyndep(p)) if (d->producer < 0) return sc.DyndepText(*d);
+  if (emptied.count(p)) return "";
   auto it = version.find(p);
-  char buf[32];
-  snprintf(buf, sizeof buf, " v%d\n", it == version.end() ? 0 : it->second);
+  auto inc = inc_version.find(p);
+  char buf[48];
+  snprintf(buf, sizeof buf, " v%d i%d\n", it == version.end() ? 0 : it->second, inc == inc_version.end() ? 0 : inc->second);
   return "src " + p + buf;
 }
 
